@@ -129,7 +129,10 @@ def run_box(inst, tier, res):
         for tname, target in target_variants(state, names, tier, nE <= 4):
             if tname == "uniform":
                 continue
-            r = mcmc.explore_step(state, state, shapes0, names, target, 0 if tname != "graded" else d)
+            # with >= 2 topologies a second complete proposal inside one call needs two extra draws (d = 2): this is
+            # what exposes state carried from a proposal of one topology into a proposal of another
+            dd = d if tname == "graded" else (2 if (len(names) >= 2 and nE <= (4 if tier == "quick" else 5)) else 0)
+            r = mcmc.explore_step(state, state, shapes0, names, target, dd)
             res.executions += r.leaves
             res.revalidated += r.rechecked
             res.transitions += len(r.successors)
